@@ -260,6 +260,81 @@ pub open spec fn saw_f64(p: f64) -> f64 { p.mul_spec(-2.0f64).add_spec(1.0f64) }
 //@endimpl
 
 // ---------------------------------------------------------------------------------------------
+// signal::window::Window (C20): a window of n frames samples the phases i/(n-1)
+// ---------------------------------------------------------------------------------------------
+use core::marker::PhantomData;
+/// contract of the window-function trait (dasp_window::Window, imported as WindowType): a pure function of the phase
+pub trait WindowType<S> {
+    type Output;
+    spec fn wspec(phase: S) -> Self::Output;
+    fn window(phase: S) -> (r: Self::Output) ensures r == Self::wspec(phase);
+}
+/// Frame::from_fn: channel i is from(i) (C03: called once per channel in channel order)
+pub trait FrameFromFn: Frame {
+    fn from_fn<M>(from: M) -> (r: Self) where M: FnMut(usize) -> Self::Sample
+        requires forall|i: usize| call_requires(from, (i,)),
+        ensures forall|i: int| 0 <= i < Self::nch() ==> call_ensures(from, (i as usize,), #[trigger] r.ch(i));
+}
+impl<T: Frame> FrameFromFn for T {
+    #[verifier::external_body]
+    fn from_fn<M>(from: M) -> (r: Self) where M: FnMut(usize) -> Self::Sample { unimplemented!() }
+}
+/// R-cast: `len as f64` (exact below 2^53: a precondition of Window::new here)
+pub uninterp spec fn usize_f64(n: usize) -> f64;
+#[verifier::external_body]
+fn usize_as_f64_(n: usize) -> (r: f64) requires n < 9007199254740992 ensures r == usize_f64(n), rv(r) == n as real { n as f64 }
+
+//@struct file=dasp_signal/src/window/mod.rs name=Window
+//@impl file=dasp_signal/src/window/mod.rs header="impl<F, W> Window<F, W>"
+//@fn file=dasp_signal/src/window/mod.rs in="impl:<F, W> Window<F, W>" name=new ret=r label=Window::new vis=pub "rules=R-subst:crate::rate(len as f64 - 1.0)=>rate(usize_as_f64_(len) - 1.0),R-subst:crate::phase=>phase"
+//@spec
+        requires 2 <= len < 9007199254740992,
+        // the phase starts at 0 and steps by 1/(len - 1)
+        ensures rv(r.phase.next) == 0real, rv(r.phase.step.step) * ((len - 1) as real) == 1real,
+//@entry
+        broadcast use float_as_real;
+//@tail
+        proof {
+            let d = usize_f64(len).sub_spec(1.0f64);
+            ax_sub(usize_f64(len), 1.0f64); ax_div(1.0f64, d);
+            assert(rv(d) == (len - 1) as real);
+            assert(step.step == 1.0f64.div_spec(d));
+            assert(rv(1.0f64) == 1real);
+            assert(rv(step.step) * rv(d) == 1real);
+        }
+//@end
+//@endimpl
+
+//@impl file=dasp_signal/src/window/mod.rs header="impl<F, W> Iterator for Window<F, W>" as="impl<F, W> Window<F, W>"
+//@fn file=dasp_signal/src/window/mod.rs in="impl:<F, W> Iterator for Window<F, W>" name=next ret=r label=Window::next vis=pub "rules=R-subst:Self::Item=>F,R-subst:|_| v_f.to_sample::<F::Sample>()=>|_| { v_f.to_sample::<F::Sample>() }"
+//@spec
+        ensures
+            r is Some, final(self).phase.step == old(self).phase.step,
+            // every channel holds the window function's value AT THE CURRENT PHASE (converted to the frame's format)
+            forall|i: int| 0 <= i < F::nch() ==> #[trigger] r.unwrap().ch(i) ==
+                conv_spec::<<F::Sample as Sample>::Float, F::Sample>(conv_spec::<f64, <F::Sample as Sample>::Float>(W::wspec(old(self).phase.next))),
+            // and the phase advances by one step, wrapped into [0, 1)
+            rv(old(self).phase.next) + rv(old(self).phase.step.step) >= 0real ==>
+                0real <= rv(final(self).phase.next) < 1real
+                && rcong(rv(final(self).phase.next), rv(old(self).phase.next) + rv(old(self).phase.step.step), 1real),
+//@closure 0 "|_|"
+|i_: usize| -> (s_: F::Sample)
+            ensures s_ == conv_spec::<<F::Sample as Sample>::Float, F::Sample>(v_f)
+//@end
+//@endimpl
+
+/// a window of n >= 2 frames samples the phases i/(n-1): if the phase before frame i is congruent to i * step and the
+/// step is 1/(n-1) (Window::new), the phase before frame i+1 is congruent to (i+1) * step (Window::next), i.e. the
+/// i-th frame is W(i/(n-1) mod 1) for every i, by induction from phase 0
+pub proof fn lemma_window_phases(i: int, step: real, p: real, p2: real)
+    requires rcong(p, (i as real) * step, 1real), rcong(p2, p + step, 1real)
+    ensures rcong(p2, ((i + 1) as real) * step, 1real)
+{
+    lemma_phase_accumulates((i as real) * step, p, step, p2);
+    assert((i as real) * step + step == ((i + 1) as real) * step) by(nonlinear_arith);
+}
+
+// ---------------------------------------------------------------------------------------------
 // lemmas (C17) in exact reals
 // ---------------------------------------------------------------------------------------------
 /// step == frequency / rate (real value of the increment computed by const_hz and Hz::step)
